@@ -794,6 +794,12 @@ struct Verdict {
     /// the block was refused only by the dao check although the builder could not even resolve
     /// its transactions: every transaction rule let an invalid transaction pass
     passed_tx_rules: bool,
+    /// for a refused probe block (deleted from the store as invalid): what the store answers
+    /// about its hash afterwards
+    refused_answers: Option<String>,
+    /// for an attached probe block that was truncated away again: what the store answers about
+    /// the data of the first output of the candidate (read once while it was live)
+    gone_cell_answers: Option<String>,
 }
 
 /// Verdict of a candidate on both paths. Leaves the node at the context tip with an empty pool.
@@ -840,6 +846,32 @@ fn verdicts(s: &Setup, node: &Node, c: &Cand, clear_cache: bool) -> Verdict {
     } else {
         None
     };
+    let refused_answers = if res.is_err() {
+        use ckb_store::ChainStore;
+        let st = node.shared.store();
+        let bh = blk.hash();
+        Some(format!(
+            "header={} block={} exists={} ext={} uncles={} proposals={} extension={} tx_hashes={} body={} number={:?}",
+            st.get_block_header(&bh).is_some(),
+            st.get_block(&bh).is_some(),
+            st.block_exists(&bh),
+            st.get_block_ext(&bh).is_some(),
+            st.get_block_uncles(&bh).is_some(),
+            st.get_block_proposal_txs_ids(&bh).is_some(),
+            st.get_block_extension(&bh).is_some(),
+            st.get_block_txs_hashes(&bh).len(),
+            st.get_block_body(&bh).len(),
+            st.get_block_number(&bh),
+        ))
+    } else {
+        None
+    };
+    let probe_out = OutPoint::new(c.tx.hash(), 0);
+    let mut read_while_live = false;
+    if accepted && !c.tx.outputs().is_empty() {
+        use ckb_store::ChainStore;
+        read_while_live = node.shared.store().get_cell_data(&probe_out).is_some();
+    }
     if h(&node.tip_hash()) != s.tip {
         // reorg notifications travel on their own channel: let the pool follow the probe block
         // first, otherwise the notification could overtake the resynchronisation below
@@ -849,7 +881,14 @@ fn verdicts(s: &Setup, node: &Node, c: &Cand, clear_cache: bool) -> Verdict {
         let _ = tpc.clear_pool(node.shared.cloned_snapshot());
     }
     wait_pool_tip(node, &s.tip);
-    Verdict { pool, accepted, ext, passed_tx_rules }
+    let gone_cell_answers = if read_while_live && h(&node.tip_hash()) == s.tip {
+        use ckb_store::ChainStore;
+        let st = node.shared.store();
+        Some(format!("cell={} cell_data={} cell_data_hash={}", st.get_cell(&probe_out).is_some(), st.get_cell_data(&probe_out).is_some(), st.get_cell_data_hash(&probe_out).is_some()))
+    } else {
+        None
+    };
+    Verdict { pool, accepted, ext, passed_tx_rules, refused_answers, gone_cell_answers }
 }
 
 /// Thorough tier: nodes with a tx-pool service cannot be torn down inside a process (their
@@ -1003,6 +1042,8 @@ pub fn run(args: &Args) -> i32 {
             let wit = json!({"context": ci, "candidate": c.name, "tx": vbase::hex(c.tx.hash().as_slice()), "commit_position": s.tg.rc.get(&s.tip).number + 1, "epoch_of_tip": format!("{}", s.tg.rc.get(&s.tip).block.epoch())});
             let v1 = verdicts(&s, &n1, c, false);
             let (pool, accepted, ext1) = (v1.pool, v1.accepted, v1.ext.clone());
+            let refused1 = v1.refused_answers.clone();
+            let gone1 = v1.gone_cell_answers.clone();
             vec1.insert(c.name, (pool, accepted));
             ext1s.insert(c.name, ext1.clone());
             if v1.passed_tx_rules && !c.valid {
@@ -1073,7 +1114,7 @@ pub fn run(args: &Args) -> i32 {
             // C14: cold caches, verification cache cleared before every event
             if let Some(cold) = &cold {
                 let v3 = verdicts(&s, cold, c, true);
-                let (p3, a3, ext3) = (v3.pool, v3.accepted, v3.ext);
+                let (p3, a3, ext3) = (v3.pool, v3.accepted, v3.ext.clone());
                 c14.eval();
                 c14.count("events_compared");
                 c14.distinct_str(&format!("{}|cache{}", c.name, cache_cfg));
@@ -1082,6 +1123,23 @@ pub fn run(args: &Args) -> i32 {
                 }
                 if ext1 != ext3 {
                     c14.violation(&format!("recorded_fees_cycles_sizes_differ@{}", c.name), format!("warm {:?} cold {:?}", ext1, ext3), wit.clone());
+                }
+                // a refused probe block is deleted from the store: what the store says about its
+                // hash afterwards must not depend on the read caches
+                if let (Some(a), Some(b)) = (&refused1, &v3.refused_answers) {
+                    c14.eval();
+                    c14.count("deleted_block_answers_compared");
+                    if a != b {
+                        c14.violation("answer_differs_with_cold_caches.deleted_invalid_block", format!("store answers about the hash of a block refused and deleted as invalid (`{}`): warm caches {a}; cache size {cache_cfg}: {b}", c.name), wit.clone());
+                    }
+                }
+                // a probe block that was attached and truncated away again: its cells are gone
+                if let (Some(a), Some(b)) = (&gone1, &v3.gone_cell_answers) {
+                    c14.eval();
+                    c14.count("gone_cell_answers_compared");
+                    if a != b {
+                        c14.violation("answer_differs_with_cold_caches.cell_of_truncated_block", format!("store answers about output 0 of `{}` after its block was truncated away (the cell data had been read once while the cell was live): warm caches {a}; cache size {cache_cfg}: {b}", c.name), wit.clone());
+                    }
                 }
                 // second pass on the WARM node: the verification cache is hot now (the tx has
                 // been verified by test_accept and by the block): verdict must not change
@@ -1172,6 +1230,8 @@ pub fn run(args: &Args) -> i32 {
                     continue;
                 }
                 c14.eval();
+                c04.eval();
+                c04.count("history_independence_checks");
                 c14.count("script_skip_then_full_verification_events");
                 if outcome[0].0 {
                     c14.count("script_skip_probe_imported_without_scripts");
@@ -1183,6 +1243,13 @@ pub fn run(args: &Args) -> i32 {
                     c14.violation(
                         &format!("script_skipped_result_served_from_cache.verdict@{}", c.name),
                         format!("`{}` in the assume-valid target block (verified with scripts on): attached={} on the node that had imported a sibling block with the same transaction while scripts were off, attached={} with the verification cache cleared in between, attached={} on a directly synchronised node", c.name, outcome[0].1, outcome[1].1, accepted1),
+                        wit.clone(),
+                    );
+                    // the same block gets different verdicts depending on what the node imported
+                    // before: history dependence in the sense of C04
+                    c04.violation(
+                        &format!("history_dependence@{}.after_a_sibling_block_was_imported_with_scripts_off", c.name),
+                        format!("`{}` committed in a fully verified block: attached={} on a node that had imported a sibling block with the same transaction below an assume-valid target, attached={} on a directly synchronised node", c.name, outcome[0].1, accepted1),
                         wit.clone(),
                     );
                 } else if outcome[0].1 && (outcome[0].2 != outcome[1].2 || (ext1.is_some() && outcome[0].2 != ext1)) {
